@@ -5,7 +5,8 @@ set -e
 cd "$(dirname "$0")"
 python3 gen/translate.py || true
 sh coq/mkproject.sh
-( cd coq && timeout 3000 make -k -j16 ) > work_setup.log 2>&1 || { tail -40 work_setup.log; echo "coq build failed"; exit 1; }
+# -k: a file that does not compile must not keep the other properties from being checked; every check re-verifies its own targets
+( cd coq && timeout 3000 make -k -j16 ) > work_setup.log 2>&1 || { grep -B2 -A12 "Error" work_setup.log | head -60; echo "WARNING: some Coq files did not compile (the checks that need them will report it)"; }
 python3 - <<'PY'
 import importlib, os, sys
 sys.path.insert(0, os.getcwd())
@@ -16,7 +17,10 @@ for f in sorted(os.listdir("props")):
         chk = importlib.import_module("props." + f[:-3]).CHECK
         if chk.ocaml and chk.ocaml["name"] not in seen:
             seen.add(chk.ocaml["name"])
-            print("ocaml driver", chk.ocaml["name"], framework.build_ocaml(**chk.ocaml))
+            try:
+                print("ocaml driver", chk.ocaml["name"], framework.build_ocaml(**chk.ocaml))
+            except framework.BuildError as e:
+                print("WARNING: ocaml driver", chk.ocaml["name"], "does not build:", str(e)[:300])
 PY
 rm -f work_setup.log
 echo "setup ok"
